@@ -630,6 +630,55 @@ def r10(F, R):
 
 
 
+FABRICATED = ("unwrap_or_default", "Default::default", "Vec::<T>::new", "Vec::new", "Vec::<T>::with_capacity", "Box::<[T]>::default")
+
+
+def _fabricated_vectors(F, stats_adts):
+    """Calls that produce an empty / default vector inside a function (or one of its closures) that builds a statistics struct."""
+    out = []
+    builders = []
+    for b in sorted(F.bodies.values(), key=lambda x: x.path):
+        if K.is_std_derive(b) or not b.blocks:
+            continue
+        for blk in b.blocks:
+            for st in blk["stmts"]:
+                if st["k"] == "assign" and st["rv"]["k"] == "agg" and st["rv"].get("ak") == "adt" and st["rv"]["adt"] in stats_adts:
+                    builders.append(b)
+                    break
+            else:
+                continue
+            break
+    for b in builders:
+        group = [b] + K.all_closures_of(F, b.path)
+        for x in group:
+            for bb, t in x.calls():
+                p_ = strip_generics(t["callee"].get("path", ""))
+                if not p_.endswith(FABRICATED):
+                    continue
+                ty = x.local_ty(t["dest"]["l"]) if not t["dest"]["p"] else str(t["dest"].get("ty"))
+                if ty.startswith(("std::vec::Vec<", "std::boxed::Box<[")) and any(e in ty for e in ("f64", "f32", "i64", "u64", "bool")):
+                    out.append((b, x, bb, t, ty))
+    return out, builders
+
+
+def r12(F, R):
+    R.rule("C16-R12", "vector-valued statistics are never fabricated: a function that builds a statistics struct (a type with a Storable impl), or one of its closures "
+                      "and inlined helpers, does not produce an empty / default numeric vector (`unwrap_or_default()`, `Vec::new()`, `Default::default()`): a value "
+                      "that is present must have the length of its declared dimensions, a value that does not exist is None")
+    from . import schema as S
+    stats_adts = {im.rec.get("self_adt") for im in S.storable_impls(F) if im.rec.get("self_adt")}
+    hits, builders = _fabricated_vectors(F, stats_adts)
+    if not builders:
+        R.missing("C16-R12", "functions constructing Storable statistics structs")
+        return
+    for (b, x, bb, t, ty) in hits:
+        R.bad("C16-R12", "%s:%s" % (b.path, t["callee"].get("name")), "%s @%s" % (x.path, loc(t["span"])), "%s produces a %s inside the construction of a statistics struct: "
+              "an empty vector is stored where the declared dims promise a full one" % (strip_generics(t["callee"].get("path", "")).split("::", 1)[-1], ty[:40]))
+    if not hits:
+        R.ok("C16-R12", "scan", "library crates", "%d functions build statistics structs; none fabricates a numeric vector" % len(builders))
+    R.floor("C16-R12", 1)
+
+
 def run(F, R, config=None):
     decl = r1_r2_r3(F, R)
     r4_r5(F, R, decl)
@@ -639,6 +688,7 @@ def run(F, R, config=None):
     r8(F, R, decl)
     r9(F, R)
     r10(F, R)
+    r12(F, R)
     # the update marker is the transformation id: it must change whenever the transformation does (C02-R5 analysis)
     from . import c02
     K.borrow_rule(R, lambda sub: c02.r5(F, sub), "C16-R11", "every function that changes a transformation (scales, mean, low-rank part) also increments its id, so the "
